@@ -113,7 +113,44 @@ class Concretizer:
             return [c] + kids
         return self.leaf(o, x)
 
+    def excluded_classes(self, o):
+        """Classes the path condition rules out for an unknown-class leaf (isinstance tests
+        that failed on this path)."""
+        out = set()
+        tag = o.ghost.get("tag")
+        if tag is None:
+            return out
+        for f in self.I.path.pc:
+            for g in (f.children() if z3.is_and(f) else [f]):
+                if z3.is_not(g) and z3.is_eq(g.arg(0)):
+                    a, b = g.arg(0).arg(0), g.arg(0).arg(1)
+                    if a.get_id() == tag.get_id():
+                        out.add(str(b))
+                    elif b.get_id() == tag.get_id():
+                        out.add(str(a))
+        return out
+
     def leaf(self, o, x):
+        t = self.leaf0(o, x)
+        ex = self.excluded_classes(o)
+        if t[0] not in ex:
+            return t
+        for w in ("Minus", "Divide", "NthPower", "NthRoot", "Add", "Multiply"):
+            if w in ex:
+                continue
+            if w == "Minus":
+                return ["Minus", t, ["Constant", 0]]
+            if w == "Divide":
+                return ["Divide", t, ["Constant", 1]]
+            if w in ("NthPower", "NthRoot"):
+                return [w, t, 1]
+            if w == "Add":
+                return ["Add", t]
+            return ["Multiply", t]
+        self.notes.append(f"{o.name}: no admissible class for the leaf")
+        return t
+
+    def leaf0(self, o, x):
         """A concrete tree with the child's denotation in the model: defined or not, value,
         partial with respect to x, coordinate missing or not."""
         I, m, pt = self.I, self.m, self.pt
